@@ -359,7 +359,7 @@ def run(program, res, tier):
     for (mod, cname, binding) in c20.SPACES:
         cls = program.cls(mod, cname)
         for mname in ("insert", "execute"):
-            m = cls.methods.get(mname)
+            m = cls.methods.get(mname) or cls.find_method(mname)
             if m is None:
                 raise AnalysisError(f"anchor vanished: {cname}.{mname}")
             res.analysed(m)
